@@ -1,2 +1,3 @@
 SPECIFICATION DiagSpec
 CHECK_DEADLOCK TRUE
+CONSTANT Off = {}
